@@ -9,7 +9,7 @@
      BOUNDED   vm_compute over a finite domain, bound in the statement; not the claim *)
 From Coq Require Import List ZArith NArith Bool.
 From SopVerif Require Import OMap OMapProofs OMapProofs2 Btree BtreeSim BtreeProofs BtreeProofs2
-  BtreeBounded1 BtreeBounded2 BtreeBounded3 BtreeBounded4 BtreeWF BtreeLemmas BtreeCount BtreeShape Corr.C17.
+  BtreeBounded1 BtreeBounded2 BtreeBounded3 BtreeBounded4 BtreeWF BtreeLemmas BtreeCount BtreeShape BtreeFind BtreeNext BtreePrev BtreeFindLoc Corr.C17.
 Import ListNotations.
 Local Open Scope Z_scope.
 
@@ -171,11 +171,49 @@ Print Assumptions C17_refines_partial.
    by RelT - the node map forms a tree (BtreeShape.shape: any height, any slot length, nil children
    and unbalanced branches allowed) whose in-order walk is the specification's item list - every
    sequence of First / Last calls simulates.  Instance of C17_refines_partial with R = RelT.
-   Not covered: Next/Previous/Find* (stage 1, rest), Add (2), Remove (3). *)
+   Props/C18.v C18_btree_find_first_hit adds Find(key,true) on a stored key (same relation + sorted).
+   Not covered: Next/Previous, the other searches and the miss position (stage 1, rest), Add (2), Remove (3). *)
 Theorem C17_refines_first_last : forall cfg b s ops, RelT b s -> Forall is_first_last ops ->
   sim_from cfg b s ops = true.
 Proof. exact first_last_refines. Qed.
 Print Assumptions C17_refines_first_last.
+
+(* PARTIAL, stage 1, scans (closed): on every pair of states related by RelN - the node map forms a
+   tree with correct parent links (BtreeNext.pshape: every node names its parent and getIndexOfChild
+   finds every child at its own position; any height, slot length, nil children, unbalanced
+   branches), its in-order walk is the specification's item list with distinct item ids, and the
+   cursor is none, on an emptied slot, or on a located slot - every sequence of First / Next calls
+   simulates: moveToNext (descent to the first item of the right child, or the climb through parent
+   pointers) lands exactly on the next item of the list, and reports the end after the last one.
+   With C17_sim_is_spec_run and C17_forward_scan: a forward scan of any such tree returns exactly its
+   in-order list.  Not covered at node level: add, removal (the relation is not shown preserved by them). *)
+Theorem C17_refines_scan : forall cfg b s ops, RelN (cL cfg) b s -> Forall is_scan_op ops ->
+  sim_from cfg b s ops = true.
+Proof. exact scan_refines. Qed.
+Print Assumptions C17_refines_scan.
+
+(* the same for all four navigation calls: every sequence of First / Last / Next / Previous simulates
+   (BtreePrev.v mirrors the climb and the descent).  Forward and backward scans of any such tree
+   return exactly its in-order list and its reverse. *)
+Theorem C17_refines_navigation : forall cfg b s ops, RelN (cL cfg) b s -> Forall is_nav_op ops ->
+  sim_from cfg b s ops = true.
+Proof. exact nav_refines. Qed.
+Print Assumptions C17_refines_navigation.
+
+(* node level, same relation: an update whose key compares unequal to the current item's key changes
+   nothing and is refused (UpdateCurrentItem with Some v, UpdateCurrentKey with None) *)
+Theorem C17_btree_key_change_rejected : forall L b s i x k v, RelN L b s -> cur s = CAt i ->
+  nth_error (items s) i = Some x -> ikey x <> k ->
+  b_update_current b k v = (b, b_reject b) /\ rok (b_reject b) = false /\ rerr (b_reject b) <> ENone.
+Proof. exact key_change_rejected_node. Qed.
+Print Assumptions C17_btree_key_change_rejected.
+
+Theorem C17_scan_nonvacuous :
+  let cfg := mkCfg 2 false false in
+  let b := fst (brun cfg empty_bstate [OAdd 1 1; OAdd 2 2; OAdd 3 3]) in
+  exists s, RelN 2 b s /\ sim_from cfg b s [OFirst; ONext; ONext; ONext; ONext] = true.
+Proof. exact scan_state. Qed.
+Print Assumptions C17_scan_nonvacuous.
 
 (* RelT is inhabited by a reachable three-node state (root split), and First/Last simulate there *)
 Theorem C17_first_last_nonvacuous :
